@@ -5,7 +5,7 @@
 (* (events computed by BiomModel), so the model is checked against exactly *)
 (* the clause set the implementation is judged by.                         *)
 (***************************************************************************)
-EXTENDS BiomFiles
+EXTENDS BiomProps4
 
 CallClauses(ev) ==
   CASE ev.call = "filter" ->
@@ -37,6 +37,11 @@ CallClauses(ev) ==
     [] ev.call = "rt_json"      -> Clauses_rt_json(ev)
     [] ev.call = "rt_tsv"       -> Clauses_rt_tsv(ev)
     [] ev.call = "subset_read"  -> Clauses_subset_read(ev)
+    [] ev.call = "summary"      -> Clauses_summary(ev)
+    [] ev.call = "construct"    -> Clauses_construct(ev)
+    [] ev.call = "construct_bad" -> Clauses_construct_bad(ev)
+    [] ev.call = "from_adjacency" -> Clauses_from_adjacency(ev)
+    [] ev.call = "parse_uc"     -> Clauses_parse_uc(ev)
     [] OTHER -> [TRACE_unknown_call |-> FALSE]
 
 \* clauses index tables by position; if some logged table is not even well-shaped they are
